@@ -245,7 +245,14 @@ class G:
 
     def e_bool(self, t, scope, d):
         rng = self.rng
-        c = rng.choice(["starts", "ends", "eq", "eq", "eqx", "in_str", "in_list", "in_x", "not", "gt", "isnone", "isinst", "andor", "cond"])
+        c = rng.choice(["starts", "ends", "eq", "eq", "eqx", "in_str", "in_list", "in_x", "not", "gt", "isnone", "isinst", "andor", "cond", "all"])
+        if c == "all":
+            w = rand_type(rng, 1)
+            it = self.maybe_fault([N, NONE, B], scope, d) or self.e(L(w), scope, d)
+            x = self.comp_var(scope)
+            inner = dict(scope)
+            inner[x] = w
+            return ["EAll", self.cond(inner, d), x, it]
         if c == "starts":
             return ["EStartswith", self.str_arg(scope, d), rng.choice(["-", "--", "", "a", "--no", "_"])]
         if c == "ends":
@@ -434,6 +441,11 @@ class G:
                 body = body + [["SIf", self.cond(s1, 1), [["SReturn", self.e("any", s1, 1)]], []]]
             # after the loop: what was bound before, with the same type (the loop may not have run)
             after = {y: u for y, u in scope.items() if s1.get(y) == u}
+            if rng.random() < 0.3:      # for .. else with a break
+                body = body + [["SIf", self.cond(s1, 1), [["SBreak"]], []]]
+                els, s2 = self.block(dict(after), 0, rng.choice([0, 1, 1]), in_loop)
+                after = {y: u for y, u in after.items() if s2.get(y) == u}
+                return [["SForBE", x, it, body, els]], after
             return [["SFor", x, it, body]], after
         if k == "unpack":
             u = rand_type(rng, 0)
@@ -658,7 +670,8 @@ def gen_plumbing(rng, ill):
                                           ["opts", {"dict": [[k, _pv(rng)] for k in rng.sample(KEYS, rng.choice([0, 1, 2]))]}],
                                           ["table", tbl], ["default", _pv(rng)]]}
     ns = {"rec": "Namespace", "fields": [[k.replace(".", "_") or "e", _pv(rng)] for k in rng.sample(KEYS, rng.choice([1, 2, 3]))]}
-    env = [["d", d], ["dd", dd], ["rec", rec], ["ns", ns], ["ks", {"list": rng.sample(KEYS, rng.choice([1, 2, 3, 4]))}],
+    recs = {"list": [{"rec": "Wrapper", "fields": [["level", rng.choice([0, 1, 1, 2, 3])], ["name", rng.choice(KEYS)]]} for _ in range(rng.choice([0, 1, 2, 3, 4]))]}
+    env = [["d", d], ["dd", dd], ["rec", rec], ["ns", ns], ["recs", recs], ["ks", {"list": rng.sample(KEYS, rng.choice([1, 2, 3, 4]))}],
            ["c", {"const": rng.choice(CONSTS)}], ["n", rng.choice([0, 1, 2])]]
     nskeys = [k for k, _ in ns["fields"]]
     fresh = [0]
@@ -690,6 +703,8 @@ def gen_plumbing(rng, ill):
                 lambda: ["ESplitDest", rng.choice([["EStr", rng.choice(["a.b.c", "abc", "", ".", "a."])], ["EAttr", ["EVar", "rec"], "name"]])],
                 lambda: ["ELen", ["EKeys", ["EVar", "d"]]], lambda: ["ELen", ["EVar", rng.choice(["d", "dd"])]],
                 lambda: ["ELen", ["EVars", ["EVar", "ns"]]], lambda: ["ECopy", ["EVar", rng.choice(["d", "ks"])]],
+                lambda: ["ESortAttr", ["EVar", "recs"], "level" if not ill or rng.random() < 0.5 else "nope", rng.random() < 0.6],
+                lambda: ["EAll", ["EIn", ["EVar", "z"], ["ETuple", [["ENone"], ["EConst", CONSTS[0]], ["ENat", 0]]]], "z", ["EValues", ["EVar", "d"]]],
                 lambda: cond()]
         return rng.choice(alts)()
 
@@ -714,7 +729,8 @@ def gen_plumbing(rng, ill):
     def stmts(n, depth, in_loop):
         out = []
         for _ in range(n):
-            k = rng.choice(["set", "set", "set2", "setattr", "pop", "pop", "popattr", "del", "delattr", "assign", "if", "forc", "for2", "unpack", "call", "append"]
+            k = rng.choice(["set", "set", "set2", "setattr", "pop", "pop", "popattr", "del", "delattr", "assign", "if", "forc", "for2", "unpack", "call", "append",
+                            "callret", "forbe"]
                            + (["continue"] if in_loop else []))
             if k == "set":
                 out.append(["SSetPath", rng.choice(["d", "d", "dd"]), [[False, key()]], val()])
@@ -780,6 +796,20 @@ def gen_plumbing(rng, ill):
                     outs = [["target", rng.choice(["d", "dd"])]]
                 ins = [["flag", cond()], ["key", key()], ["value", val0()], ["target", ["EVar", outs[0][1]]]] + ([["ns", ["EVar", "ns"]]] if len(outs) == 2 else [])
                 out.append(["SCall", body, ins, outs])
+            elif k == "callret":
+                body = [["SIf", ["EVar", "flag"], [["SForBE", "it", ["EVar", "items"], [["SIf", ["EEq", ["EVar", "it"], ["EVar", "probe"]], [["SBreak"]], []]],
+                                                     [["SReturn", ["ENone"]]]]], []],
+                        ["SReturn", ["ECallTable", ["EVar", "table"], ["EVar", "probe"]]]]
+                ins = [["flag", cond()], ["items", ["EAttr", ["EVar", "rec"], "items"]], ["probe", rng.choice([["ENat", 0], ["ENat", 2], ["EVar", "n"], ["EStr", "s"]])],
+                       ["table", ["EAttr", ["EVar", "rec"], "table"]]]
+                t = rng.choice(["v", "w"])
+                bound.add(t)
+                out.append(["SCallRet", t, body, ins, []])
+            elif k == "forbe" and depth > 0:
+                body = stmts(rng.choice([0, 1]), depth - 1, False) + [["SIf", cond(), [["SBreak"]], [["SIf", cond(), [["SContinue"]], []]] if rng.random() < 0.4 else []]]
+                els = stmts(rng.choice([0, 1, 1]), depth - 1, in_loop)
+                bound.add("k")
+                out.append(["SForBE", "k", rng.choice([["EVar", "ks"], ["EAttr", ["EVar", "rec"], "items"]]), body, els])
             elif k == "append":
                 out.append(["SAppend", "ks", key()])
             elif k == "continue":
@@ -793,7 +823,7 @@ def gen_plumbing(rng, ill):
         body.append(["SSetPath", "d", [[False, ["EStr", "late"]]], ["ENat", 1]])
         if body[0][0] == "SAssign" and body[0][1] == "alias":
             body.append(["SSetPath", "alias", [[False, ["EStr", "x"]]], ["ENat", 2]])
-    ret = ["ETuple", [["EVar", x] for x in ("d", "dd", "rec", "ns", "ks")] + [["EVar", x] for x in sorted(bound) if x != "_" and rng.random() < 0.5 and not ill]]
+    ret = ["ETuple", [["EVar", x] for x in ("d", "dd", "rec", "ns", "ks")] + ([["ESortAttr", ["EVar", "recs"], "level", rng.random() < 0.5]] if rng.random() < 0.3 else []) + [["EVar", x] for x in sorted(bound) if x != "_" and rng.random() < 0.5 and not ill]]
     body.append(["SReturn", ret])
     return {"env": env, "prog": body, "ill": ill}
 
@@ -969,6 +999,14 @@ def py_expr(e):
         return _call(py_expr(e[1]), py_expr(e[2]))
     if k == "ESplitDest":
         return _call(ast.Attribute(value=ast.Name(id="utils", ctx=ast.Load()), attr="split_dest", ctx=ast.Load()), py_expr(e[1]))
+    if k == "ESortAttr":
+        lam = ast.Lambda(args=ast.arguments(posonlyargs=[], args=[ast.arg(arg="w")], kwonlyargs=[], kw_defaults=[], defaults=[]),
+                         body=ast.Attribute(value=ast.Name(id="w", ctx=ast.Load()), attr=e[2], ctx=ast.Load()))
+        kws = [ast.keyword(arg="key", value=lam)] + ([ast.keyword(arg="reverse", value=_c(True))] if e[3] else [])
+        return _call(ast.Name(id="sorted", ctx=ast.Load()), py_expr(e[1]), keywords=kws)
+    if k == "EAll":
+        g = ast.comprehension(target=ast.Name(id=e[2], ctx=ast.Store()), iter=py_expr(e[3]), ifs=[], is_async=0)
+        return _call(ast.Name(id="all", ctx=ast.Load()), ast.GeneratorExp(elt=py_expr(e[1]), generators=[g]))
     raise ValueError(f"unknown expression constructor {k}")
 
 
@@ -1031,6 +1069,13 @@ def py_stmt(s):
         return ast.Assign(targets=[_store(s[1])], value=call, lineno=0)
     if k == "SCall":
         return ast.Expr(value=_call(ast.Name(id=s[4], ctx=ast.Load()), keywords=[ast.keyword(arg=p, value=py_expr(a)) for p, a in s[2]]))
+    if k == "SCallRet":
+        call = _call(ast.Name(id=s[5], ctx=ast.Load()), keywords=[ast.keyword(arg=p, value=py_expr(a)) for p, a in s[3]])
+        return ast.Assign(targets=[_store(s[1])], value=call, lineno=0)
+    if k == "SBreak":
+        return ast.Break()
+    if k == "SForBE":
+        return ast.For(target=_store(s[1]), iter=py_expr(s[2]), body=py_block(s[3]), orelse=[py_stmt(x) for x in s[4]], lineno=0)
     raise ValueError(f"unknown statement constructor {k}")
 
 
@@ -1046,6 +1091,11 @@ def _walk_stmts(ss):
             yield from _walk_stmts(st[4])
         elif st[0] == "SCall":
             yield from _walk_stmts(st[1])
+        elif st[0] == "SCallRet":
+            yield from _walk_stmts(st[2])
+        elif st[0] == "SForBE":
+            yield from _walk_stmts(st[3])
+            yield from _walk_stmts(st[4])
 
 
 def to_source(case):
@@ -1057,15 +1107,16 @@ def to_source(case):
     # procedures (SCall): one module-level def each; the call site names it (slot 4 of the statement, printing only)
     defs = []
     for st in _walk_stmts(case["prog"]):
-        if st[0] == "SCall":
+        if st[0] in ("SCall", "SCallRet"):
+            o = 0 if st[0] == "SCall" else 1          # SCallRet carries the target in slot 1
             name = f"proc_{len(defs)}"
-            if len(st) == 4:
+            if len(st) == 4 + o:
                 st.append(name)
             else:
-                st[4] = name
-            defs.append(ast.FunctionDef(name=name, args=ast.arguments(posonlyargs=[], args=[ast.arg(arg=p) for p, _ in st[2]], kwonlyargs=[],
+                st[4 + o] = name
+            defs.append(ast.FunctionDef(name=name, args=ast.arguments(posonlyargs=[], args=[ast.arg(arg=p) for p, _ in st[2 + o]], kwonlyargs=[],
                                                                       kw_defaults=[], defaults=[]),
-                                        body=py_block(st[1]), decorator_list=[], returns=None, lineno=0, type_params=[]))
+                                        body=py_block(st[1 + o]), decorator_list=[], returns=None, lineno=0, type_params=[]))
     views = []
     for st in _walk_stmts(case["prog"]):
         if st[0] == "SPopAttr" and st[2] not in views:
@@ -1139,6 +1190,10 @@ def coq_expr(e):
         return f"({k} {coq_expr(e[1])})"
     if k == "EDictGet":
         return f"(EDictGet {coq_expr(e[1])} {coq_expr(e[2])} {coq_expr(e[3])})"
+    if k == "ESortAttr":
+        return f"(ESortAttr {coq_expr(e[1])} {cstr(e[2])} {'true' if e[3] else 'false'})"
+    if k == "EAll":
+        return f"(EAll {coq_expr(e[1])} {cstr(e[2])} {coq_expr(e[3])})"
     raise ValueError(k)
 
 
@@ -1176,6 +1231,14 @@ def coq_stmt(s):
         ins = "; ".join(f"({cstr(p)}, {coq_expr(a)})" for p, a in s[2])
         outs = "; ".join(f"({cstr(p)}, {cstr(x)})" for p, x in s[3])
         return f"SCall [{'; '.join(coq_stmt(x) for x in s[1])}] [{ins}] [{outs}]"
+    if k == "SCallRet":
+        ins = "; ".join(f"({cstr(p)}, {coq_expr(a)})" for p, a in s[3])
+        outs = "; ".join(f"({cstr(p)}, {cstr(x)})" for p, x in s[4])
+        return f"SCallRet {cstr(s[1])} [{'; '.join(coq_stmt(x) for x in s[2])}] [{ins}] [{outs}]"
+    if k == "SBreak":
+        return "SBreak"
+    if k == "SForBE":
+        return f"SForBE {cstr(s[1])} {coq_expr(s[2])} [{'; '.join(coq_stmt(x) for x in s[3])}] [{'; '.join(coq_stmt(x) for x in s[4])}]"
     raise ValueError(k)
 
 
@@ -1304,7 +1367,7 @@ def _translate(src):
     from translate import minipy
     mod = ast.parse(src)
     kw = dict(attr_vars=ATTR_VARS, prims={"utils.get_nesting_level": "ENestLevel", "utils.split_dest": "ESplitDest"}, objects=True,
-              consts={"argparse.SUPPRESS": "argparse.SUPPRESS", "dataclasses.MISSING": "dataclasses.MISSING"}, tables=["rec.table"],
+              consts={"argparse.SUPPRESS": "argparse.SUPPRESS", "dataclasses.MISSING": "dataclasses.MISSING"}, tables=["rec.table", "table"],
               record_classes=REC_CLASSES)
     procs = {f.name: (f, minipy.Ctx(**kw), None) for f in mod.body[:-1]}
     c = minipy.Ctx(attr_targets=["self.acc"], procs=procs, **kw)
